@@ -46,6 +46,10 @@ func (p c05) Run(c *core.Ctx) {
 		p.lazyCandidates(c)
 		return
 	}
+	if c.Index%25 == 3 {
+		p.panickingInit(c)
+		return
+	}
 	if c.Index%5 == 4 {
 		p.retry(c)
 		return
@@ -100,6 +104,13 @@ func (p c05) Run(c *core.Ctx) {
 			}
 		}
 	}
+	// an ordinary eager component that also implements the factory / definition-registry post-processor
+	// interfaces ("factory aware"): it passes through the lifecycle like any component
+	var fa *world.FactoryAwareBare
+	if c.Rng.Intn(4) == 0 {
+		fa = &world.FactoryAwareBare{Nm: []string{"a-factory-aware", "z-factory-aware"}[c.Rng.Intn(2)]}
+		extra = append(extra, fa)
+	}
 	r := world.Build(sc, world.Options{Extra: extra})
 	if c.Rng.Intn(4) == 0 {
 		// components wired by hand before registration (a := &A{Z: z}; SetComponents(a, z)): some by-name
@@ -134,6 +145,14 @@ func (p c05) Run(c *core.Ctx) {
 	}
 	problems, stats := checkLifecycle(r, npp)
 	problems = append(problems, checkLifePPs(r, lifePPs, npp)...)
+	if fa != nil {
+		for _, k := range []string{"before", "init", "after"} {
+			if n := countEvents(r, k, fa.Nm); n != 1 {
+				problems = append(problems, fmt.Sprintf("factory-aware eager component %q: %d %q event(s), expected 1", fa.Nm, n, k))
+			}
+		}
+		c.Count("factory_aware_components_checked", 1)
+	}
 	c.Count("post_processor_dependencies", len(lifePPs))
 	c.Count("lifecycle_events", stats.events)
 	c.Count("components_checked", stats.components)
@@ -708,6 +727,53 @@ func (p c05) supplied(c *core.Ctx) {
 // lazyCandidates: a single-valued pointer point with several same-typed lazy candidates: the one the
 // narrowing rules select is created and initialised for the holder, the others - lazy, needed by nobody
 // - are not.
+// panickingInit: an Init that panics half way is not a completed initialisation: the component gets no
+// after-initialisation callbacks, nothing that depends on it is initialised against it, and the start does
+// not report success.
+func (p c05) panickingInit(c *core.Ctx) {
+	g := world.NewG(c.Rng)
+	dep := g.AddNode([]int{0, 1, 3}[c.Rng.Intn(3)], g.FreshName(0)) // eager, Init
+	var holders []int
+	for x, nx := 0, 1+c.Rng.Intn(2); x < nx; x++ {
+		h := g.AddNode([]int{0, 1, 3, 6}[c.Rng.Intn(4)], g.FreshName(x+1))
+		g.EdgeByName(h, dep, "", "iface")
+		holders = append(holders, h)
+	}
+	g.AddNode(world.TypesRunner[c.Rng.Intn(len(world.TypesRunner))], g.FreshName(9))
+	g.ShuffleOrders()
+	dn := g.Sc.Nodes[dep].DisplayName()
+	hook := func(kind string, who world.Node) {
+		if kind == "init" && who.DisplayName() == dn {
+			var m map[string]int
+			m["half-way"] = 1 // panics: assignment to entry in nil map
+		}
+	}
+	r := world.Start(g.Sc, world.Options{Hook: hook})
+	c.Count("starts", 1)
+	c.Count("panicking_init_starts", 1)
+	detail := failDetail(g.Sc, r, map[string]any{"events": renderEvents(r.Log.Events(), 60)})
+	if r.Outcome() == "ok" || r.Outcome() == "stalled" || r.Outcome() == "diverged" {
+		c.Fail("", fmt.Sprintf("the Init of %q panicked half way, the start outcome is %s", dn, r.Outcome()), detail)
+		return
+	}
+	if n := countEvents(r, "after", dn); n > 0 {
+		c.Fail("", fmt.Sprintf("the Init of %q panicked half way, yet the component received %d after-initialisation callback(s)", dn, n), detail)
+		return
+	}
+	for _, h := range holders {
+		hn := g.Sc.Nodes[h].DisplayName()
+		if n := countEvents(r, "init", hn); n > 0 {
+			c.Fail("", fmt.Sprintf("component %q, which depends on %q whose Init panicked, was initialised all the same", hn, dn), detail)
+			return
+		}
+	}
+	if n := countEvents(r, "run"); n > 0 {
+		c.Fail("", fmt.Sprintf("%d runner(s) ran although the Init of %q panicked", n, dn), detail)
+		return
+	}
+	c.Nontrivial("panicinit|" + g.Sc.GraphSig())
+}
+
 // lazyPrimary: several lazy candidates of one interface point, one of them the (only) Primary: that one is
 // what the eager holder needs - it is initialised (before the holder), the others stay untouched.
 func (p c05) lazyPrimary(c *core.Ctx) {
